@@ -534,3 +534,102 @@ fn u12_taiko_perf_hhh() {
         idx += 1;
     }
 }
+
+// ---- base case: the real constructor on small native taiko maps -----------------------------------------------------
+fn stub_new_preprocess(_objs: &TaikoDifficultyObjects) {}
+fn stub_new_tdo(
+    hit_object: &crate::taiko::object::TaikoObject,
+    _last_object: &crate::taiko::object::TaikoObject,
+    _clock_rate: f64,
+    idx: usize,
+    _map: &Beatmap,
+    _global_slider_velocity: f64,
+    _objects: &mut TaikoDifficultyObjects,
+) -> RefCount<TaikoDifficultyObject> {
+    RefCount::new(TaikoDifficultyObject {
+        idx,
+        delta_time: 250.0,
+        start_time: hit_object.start_time,
+        base_hit_type: hit_object.hit_type,
+        mono_idx: MonoIndex::None,
+        note_idx: 0,
+        rhythm_data: RhythmData { same_rhythm_grouped_hit_objects: None, same_patterns_grouped_hit_objects: None, ratio: 1.0 },
+        color_data: ColorData::default(),
+        effective_bpm: 120.0,
+    })
+}
+
+/// `hits[i]`: object i is a hit (circle) or a spinner; kinds concrete per harness
+fn new_base_case(hits: &[bool]) {
+    use crate::model::hit_object::{HitObject, HitObjectKind, Spinner};
+    use rosu_map::section::hit_objects::hit_samples::HitSoundType;
+    use rosu_map::util::Pos;
+    let n = hits.len();
+    let mut map = Beatmap::default();
+    map.mode = GameMode::Taiko;
+    let mut n_hits = 0usize;
+    let mut later_hits = 0usize;
+    let mut i = 0;
+    while i < n {
+        let kind = if hits[i] { HitObjectKind::Circle } else { HitObjectKind::Spinner(Spinner { duration: 100.0 }) };
+        if hits[i] {
+            n_hits += 1;
+            if i >= 2 {
+                later_hits += 1;
+            }
+        }
+        map.hit_objects.push(HitObject { pos: Pos::new(256.0, 192.0), start_time: 500.0 * i as f64, kind });
+        map.hit_sounds.push(HitSoundType::default());
+        i += 1;
+    }
+    let g = match TaikoGradualDifficulty::new(Difficulty::new(), &map) {
+        Ok(g) => g,
+        Err(_) => {
+            assert!(false, "C07 a taiko map needs no conversion");
+            return;
+        }
+    };
+    // A-INV for idx == 0 (healthy class): position 0, both first objects are hits, total_hits == 2 + hits ahead
+    assert!(g.idx == 0 && g.attrs.max_combo == 0, "C15 a new calculator is at position 0 with no combo");
+    assert!(g.total_hits == n_hits, "C14 total_hits is the number of hits of the map");
+    assert!(matches!(g.first_combos, FirstTwoCombos::Both), "C02 base case: both first objects are hits");
+    assert!(g.diff_objects.objects.len() == n - 2, "C02 base case: one difficulty object per object after the second");
+    assert!(g.diff_objects_iter.len() == g.diff_objects.objects.len(), "C02 base case: the object iterator starts at the first difficulty object");
+    let mut ahead = 0usize;
+    let mut j = 0;
+    while j < g.diff_objects.objects.len() {
+        if g.diff_objects.objects[j].get().base_hit_type.is_hit() {
+            ahead += 1;
+        }
+        j += 1;
+    }
+    assert!(ahead == later_hits && g.total_hits == 2 + ahead, "C02 base case: total_hits == 2 + hits among the difficulty objects");
+    assert!(g.len() == n_hits, "C02 the calculator announces one value per hit");
+    assert!(!g.attrs.is_convert, "C14 a taiko map is not a convert");
+    std::mem::forget(g);
+    std::mem::forget(map);
+}
+
+macro_rules! nb {
+    ($name:ident, [$($h:expr),*]) => {
+        #[kani::proof]
+        #[kani::unwind(7)]
+        #[kani::stub(crate::taiko::difficulty::color::preprocessor::ColorDifficultyPreprocessor::process_and_assign, stub_new_preprocess)]
+        #[kani::stub(crate::taiko::difficulty::rhythm::preprocessor::RhythmDifficultyPreprocessor::process_and_assign, stub_new_preprocess)]
+        #[kani::stub(TaikoDifficultyObject::new, stub_new_tdo)]
+        fn $name() {
+            new_base_case(&[$($h),*]);
+        }
+    };
+}
+
+//@ obl: id=U12.taiko.new.hhh harness=u12_taiko_new_hhh stubs=yes props=C02,C15 tier=quick kind=bounded
+//@ fns: TaikoGradualDifficulty::new, taiko DifficultyValues::create_difficulty_objects
+//@ bound: bounded: native taiko map of three hits; default Difficulty; colour / rhythm preprocessors and TaikoDifficultyObject::new (float feature extraction) replaced by stubs that keep index and hit type
+//@ clause: base case of A-INV on the real constructor (healthy class): idx == 0, max_combo == 0, first_combos == Both, total_hits == number of hits == 2 + hits among the difficulty objects, one difficulty object per object after the second, the object iterator at its start, len() == number of hits
+nb!(u12_taiko_new_hhh, [true, true, true]);
+//@ obl: id=U12.taiko.new.hhnh harness=u12_taiko_new_hhnh stubs=yes props=C02,C15 tier=quick kind=bounded
+//@ fns: TaikoGradualDifficulty::new
+//@ bound: bounded: native taiko map hit, hit, spinner, hit; otherwise as U12.taiko.new.hhh
+//@ clause: as U12.taiko.new.hhh
+nb!(u12_taiko_new_hhnh, [true, true, false, true]);
